@@ -116,6 +116,9 @@ pub fn c12_op(req: &J) -> J {
 
 /// C04: a covenant that only approves when it is evaluated for input position 0, locking two coins spent together.
 pub fn c04_env(_req: &J) -> J {
+    if _req.get("n_inputs").is_some() {
+        return c04_positional(_req);
+    }
     use melstf::{verif_hooks as vh, UnsealedState};
     use melstructs::{CoinData, CoinDataHeight, CoinID, CoinValue, Denom, NetID, Transaction, TxHash, TxKind};
     use melvm::CovenantEnv;
@@ -204,6 +207,64 @@ pub fn c04_env(_req: &J) -> J {
     match r {
         Ok((accepted, all, variants, refusing, missing)) => json!({"panicked": false, "accepted": accepted, "variants": variants,
             "all_inputs_approve": all, "refusing_covenants_accepted": refusing, "missing_script_accepted": missing}),
+        Err(_) => json!({"panicked": true, "msg": crate::last_panic()}),
+    }
+}
+
+/// C04, wider transactions: `n_inputs` coins spent together, the one at position `pos` locked by `spender index == k` (for
+/// every k < n_inputs), the others by an always-true covenant.  The transaction must be accepted exactly when that covenant,
+/// run on its own with the coin's real environment, approves.
+pub fn c04_positional(req: &J) -> J {
+    use melstf::{verif_hooks as vh, UnsealedState};
+    use melstructs::{CoinData, CoinDataHeight, CoinID, CoinValue, Denom, NetID, Transaction, TxHash, TxKind};
+    use melvm::CovenantEnv;
+    use novasmt::{Database, InMemoryCas};
+    use tmelcrypt::HashVal;
+    let n = req["n_inputs"].as_u64().unwrap_or(9) as usize;
+    let pos = (req["pos"].as_u64().unwrap_or((n - 1) as u64) as usize).min(n - 1);
+    let r = catch_unwind(AssertUnwindSafe(|| {
+        let db = Database::new(InMemoryCas::default());
+        let mut st: UnsealedState<InMemoryCas> = crate::util::genesis(NetID::Custom02, 0, 0).realize(&db);
+        let sealed = st.clone().seal(None);
+        st = sealed.next_unsealed();
+        let last_header = sealed.header();
+        let mk = |i: usize| CoinID { txhash: TxHash(HashVal([0x40 + i as u8; 32])), index: 0 };
+        let truth = Covenant::always_true();
+        let mut cases = vec![];
+        let mut mismatch = false;
+        for k in 0..n {
+            let bound = Covenant::from_ops(&[OpCode::LoadImm(9), OpCode::PushI((k as u8).into()), OpCode::Eql]);
+            let mut stv = st.clone();
+            let mut cdhs = vec![];
+            for i in 0..n {
+                let cov = if i == pos { &bound } else { &truth };
+                let cdh = CoinDataHeight { coin_data: CoinData { covhash: cov.hash(), value: CoinValue(100), denom: Denom::Mel, additional_data: Default::default() }, height: 0.into() };
+                vh::insert_coin(&mut stv, mk(i), cdh.clone());
+                cdhs.push(cdh);
+            }
+            let tx = Transaction {
+                kind: TxKind::Normal,
+                inputs: (0..n).map(mk).collect(),
+                outputs: vec![CoinData { covhash: truth.hash(), value: CoinValue(100 * n as u128), denom: Denom::Mel, additional_data: Default::default() }],
+                fee: CoinValue(0),
+                covenants: vec![bound.to_bytes(), truth.to_bytes()],
+                data: Default::default(),
+                sigs: vec![],
+            };
+            let approves = bound
+                .execute(&tx, Some(CovenantEnv { parent_coinid: mk(pos), parent_cdh: cdhs[pos].clone(), spender_index: pos as u8, last_header }))
+                .map(|v| v.into_bool())
+                .unwrap_or(false);
+            let accepted = stv.apply_tx(&tx).is_ok();
+            if accepted != approves {
+                mismatch = true;
+                cases.push(json!({"covenant": format!("spender index == {k}"), "position": pos, "own_verdict": approves, "accepted": accepted}));
+            }
+        }
+        (mismatch, cases)
+    }));
+    match r {
+        Ok((m, cases)) => json!({"panicked": false, "positional_mismatch": m, "cases": cases, "n_inputs": n, "pos": pos}),
         Err(_) => json!({"panicked": true, "msg": crate::last_panic()}),
     }
 }
